@@ -352,7 +352,7 @@ pub fn case_strategy() -> impl Strategy<Value = DelegCase> {
 pub const RULE: &str = "programs = generated traits with two required methods and a provided method whose default body (drawn from an expression grammar) calls 0-3 required methods with values derived from its arguments and earlier results and combines the results; receiver kinds &self, &mut self, self, Rc<Self> / Arc<Self> (with an outer handle alive, and as sole owner), Pin<&mut Self>; required methods configured unordered with exact counts or as one ordered next_call sequence; histories of 1-6 operations mixing direct required calls and delegated calls, the provided method unmentioned or mentioned with applies_default_impl(). Non-trivial = the body calls >= 2 required methods and the history has a delegated call plus another operation; distinct = distinct case";
 
 fn spec<'a>() -> Spec<'a, DelegCase> {
-    Spec { project: "C15", prelude: crate::c05::PRELUDE, source: &source, judge: &judge, nbins: 16, max_shrink_steps: 30 }
+    Spec { project: "C15", prelude: crate::c05::PRELUDE, source: &source, judge: &judge, nbins: 16, max_shrink_steps: 30, extra_deps: "" }
 }
 
 pub fn run(ctx: &Ctx) -> Verdict {
